@@ -1,6 +1,8 @@
 """C13 -- loading untrusted bytes: total, typed errors only, no side effects, no prefix loads."""
 from __future__ import annotations
 
+import os
+
 import resource
 import signal
 
@@ -78,6 +80,42 @@ def soup(rng):
     if rng.random() < 0.8:
         b.append(ord("Q"))
     return bytes(b)
+
+
+PROBE = r"""
+import struct, sys
+import execnet
+from execnet.gateway_base import opcode, DUMPFORMAT_VERSION as V, DataFormatError
+bt = opcode.BUILDTUPLE + struct.pack("!i", 1)
+n = int(sys.argv[2])
+data = {"dictkey": V + opcode.NEWDICT + opcode.NONE + bt * n + opcode.NONE + opcode.SETITEM + opcode.STOP,
+        "setelem": V + opcode.NONE + bt * n + opcode.SET + struct.pack("!i", 1) + opcode.STOP,
+        "plain": V + opcode.NONE + bt * n + opcode.STOP}[sys.argv[1]]
+try:
+    v = execnet.loads(data)
+    print("value")
+except (DataFormatError, EOFError) as e:
+    print("DataFormatError")
+except BaseException as e:
+    print("other:" + type(e).__name__)
+"""
+
+
+def deep_probe(ck, tier):
+    """hostile nesting whose size is justified by the input (5 bytes per level): deep tuples, plain and as dict key / set element, in a
+    subprocess (hashing a deep tuple recurses in C)"""
+    import subprocess
+    import sys
+
+    for shape in ("plain", "dictkey", "setelem"):
+        for n in ((1000, 200000) if tier == "quick" else (1000, 50000, 100000, 200000, 400000)):
+            p = subprocess.run([sys.executable, "-c", PROBE, shape, str(n)], capture_output=True, text=True, timeout=300,
+                               env={**os.environ, "PYTHONPATH": os.environ.get("PYTHONPATH", "")})
+            out = p.stdout.strip()
+            ck.case(("deep-tuple", shape, n), nontrivial=True)
+            ck.count("deep_tuple_probes")
+            if p.returncode != 0 or out not in ("value", "DataFormatError"):
+                ck.fail("loads-crashes-or-raises-untyped:deep-tuple-%s" % ("as-key" if shape != "plain" else "plain"), {"shape": shape, "levels": n, "bytes": 5 * n + 4, "exit_status": p.returncode, "stdout": out, "stderr": p.stderr[-200:]})
 
 
 def main(tier, seed, replay=None):
@@ -171,4 +209,5 @@ def main(tier, seed, replay=None):
     ck.cov["disagreements_checked"] = len(inputs)
     ck.cov["programs"] = len(inputs)
     ck.cov["model_impl_disagreements"] = ndis
+    deep_probe(ck, tier)
     return ck.finish(rule="strict prefixes (all, or 100 evenly spaced for long dumps) of valid dumps of a fixed + generated corpus; every single-byte substitution (opcode letters, 0, 255, 128, bit flip, random), deletion and opcode insertion of the shorter dumps; opcode soups with adversarial length fields (negative, 0, off-by-one, 2^20, 2^31-1) under all four string-coercion settings; random bytes. distinct = distinct (bytes, settings); non-trivial = more than one byte.")
